@@ -166,7 +166,9 @@ class ApproximationScheme(object):
                             rng = np.arange(start, stop)[cinds]
                         else:
                             rng = range(start, stop)
-                        wrt_ranges.append((abs_wrt, stop - start))
+                        # number of jacobian columns of this variable (the design variable may be
+                        # a subset of the variable's entries)
+                        wrt_ranges.append((abs_wrt, cend - cstart))
                         ccol2outvec[colored_start:colored_end] = rng
                     colored_start = colored_end
 
